@@ -122,7 +122,9 @@ def instances(tier):
     unclamped2 = dict(kind='curve', degs=(1,), kvs=[fam.unclamped_unit(1, 3)], dim=2, rational=False, mults=('unclamped-unit',))
     base.append(unclamped2)
     if not quick:
-        base += [spec('curve', (3,), ((1, 2),), rational=True, dim=3), spec('surface', (2, 2), ((1,), ()), rational=True), spec('surface', (2, 1), ((1, 1), ()), rational=False)]
+        base += [spec('curve', (3,), ((1, 2),), rational=True, dim=3), spec('surface', (2, 2), ((1,), ()), rational=True), spec('surface', (2, 1), ((1, 1), ()), rational=False),
+                 spec('curve', (4,), ((2,),), rational=False, dim=3), spec('curve', (5,), ((),), rational=True, dim=2), spec('surface', (3, 2), ((), (1,)), rational=True),
+                 spec('volume', (2, 1, 2), ((), (1,), ()), rational=True), spec('volume', (1, 2, 1), ((1,), (), (1,)), rational=False)]
     for sp in base:
         for inplace in (False, True):
             out.append(inst('%s translate inplace=%s' % (spec_name(sp), inplace), h_transform, timeout=900, sps=[sp], kind='translate', inplace=inplace))
